@@ -176,7 +176,8 @@ Definition relax (cur cost : N) (st : dstate) (s : N * N * N) : dstate :=
   let better := match aget dist w with Some d => N.ltb nc d | None => true end in
   if better then (aset dist w nc, (w, (cur, e)) :: par, (nc, w) :: heap) else st.
 
-Fixpoint dijkstra_loop (nb : edge -> N -> option N) (g : graph) (to : N) (fuel : nat) (st : dstate) : option (option (N * pmap)) :=
+(* generic in the weighted successor function ws : node -> [(neighbour, edge id, weight)] *)
+Fixpoint dijkstra_gen (ws : N -> list (N * N * N)) (to : N) (fuel : nat) (st : dstate) : option (option (N * pmap)) :=
   match fuel with
   | O => None
   | S f =>
@@ -186,10 +187,11 @@ Fixpoint dijkstra_loop (nb : edge -> N -> option N) (g : graph) (to : N) (fuel :
       | Some ((cost, u), heap') =>
           if N.eqb u to then Some (Some (cost, par))
           else if match aget dist u with Some d => N.ltb d cost | None => false end
-               then dijkstra_loop nb g to f (dist, par, heap')
-               else dijkstra_loop nb g to f (fold_left (relax u cost) (w_succs nb g u) (dist, par, heap'))
+               then dijkstra_gen ws to f (dist, par, heap')
+               else dijkstra_gen ws to f (fold_left (relax u cost) (ws u) (dist, par, heap'))
       end
   end.
+Definition dijkstra_loop (nb : edge -> N -> option N) (g : graph) := dijkstra_gen (w_succs nb g).
 
 Definition dijkstra_fuel (g : graph) : nat :=
   let m := length (gedges g) in S (S (2 * m)) * S (S (2 * m)).
